@@ -1055,6 +1055,10 @@ void EGLPNUM_TYPENAME_ILLprice_update_dsteep_norms (
 		EGLPNUM_TYPENAME_EGlpNumAddTo(dsinfo->norms[i], ntmp);
 		if (EGLPNUM_TYPENAME_EGlpNumIsLess (dsinfo->norms[i], EGLPNUM_TYPENAME_PARAM_MIN_DNORM))
 			EGLPNUM_TYPENAME_EGlpNumCopy (dsinfo->norms[i], EGLPNUM_TYPENAME_PARAM_MIN_DNORM);
+		/* in exact arithmetic the floor above is zero, and the weights, which start
+		 * from approximations, can reach it; they are divisors later on */
+		if (!EGLPNUM_TYPENAME_EGlpNumIsGreatZero (dsinfo->norms[i]))
+			EGLPNUM_TYPENAME_EGlpNumOne (dsinfo->norms[i]);
 	}
 	EGLPNUM_TYPENAME_EGlpNumCopyFrac (dsinfo->norms[lindex], norml, yl);
 	EGLPNUM_TYPENAME_EGlpNumDivTo (dsinfo->norms[lindex], yl);
@@ -1590,6 +1594,8 @@ int EGLPNUM_TYPENAME_ILLprice_load_rownorms (
 		EGLPNUM_TYPENAME_EGlpNumCopy (pinf->dsinfo.norms[i], rnorms[i]);
 		if (EGLPNUM_TYPENAME_EGlpNumIsLess (pinf->dsinfo.norms[i], EGLPNUM_TYPENAME_PARAM_MIN_DNORM))
 			EGLPNUM_TYPENAME_EGlpNumCopy (pinf->dsinfo.norms[i], EGLPNUM_TYPENAME_PARAM_MIN_DNORM);
+		if (!EGLPNUM_TYPENAME_EGlpNumIsGreatZero (pinf->dsinfo.norms[i]))
+			EGLPNUM_TYPENAME_EGlpNumOne (pinf->dsinfo.norms[i]);
 	}
 
 	EG_RETURN(rval);
